@@ -761,3 +761,42 @@ def random_token_runs(rng, n):
             c = ctx(local, ns, attrs, form=rng.randint(0, 1))
         cases.append((case_tok(toks, o, c), "random-tok"))
     return cases
+
+
+# ----------------------------------------------------------------------------- text families shared by C02 / C06 / C04
+
+def foreign_named_texts():
+    """elements in the SVG / MathML namespace whose LOCAL name means something to the HTML rules (scope checks, implied end
+    tags, reset the insertion mode, table structure, formatting), with HTML content continuing inside an integration point
+    below them; returns (text, ctx-or-None)"""
+    names = ["tr", "td", "th", "tbody", "thead", "tfoot", "caption", "colgroup", "col", "select", "option", "optgroup", "button",
+             "a", "form", "frameset", "template", "html", "applet", "marquee", "object", "address", "li", "p", "dd", "table", "body",
+             "h1", "b", "nobr", "rt", "title"]
+    ips = [("svg", "<desc>"), ("svg", "<foreignObject>"), ("math", "<mtext>"), ("math", "<annotation-xml encoding=text/html>")]
+    bodies = ["<p>x", "x", "<template></template><td>x", "<table></table><tr>x", "<b>x", "<li>x<button>y", "<td>x"]
+    closers = ["</%s>", "<%s>", "</p></%s>", "</svg></%s>", "<tr></%s>", ""]
+    pres = ["", "<table>", "<table><tr>", "<template>", "<template><td>a</td>", "<p>", "<button>", "<ul><li>", "<a>", "<select>"]
+    out = []
+    for n in names:
+        for root, ip in ips:
+            for b in bodies:
+                for c in closers:
+                    for pre in pres:
+                        out.append((pre + "<%s><%s>" % (root, n) + ip + b + (c % n if "%s" in c else c) + "t", None))
+    for cx in ("tr", "tbody", "table", "td", "select", "template", "caption", "colgroup", "body", "p", "button"):
+        for n in names[:16]:
+            for root, ip in ips[:3:2]:
+                for c in ("</%s>" % n, "<%s>" % n, "</%s>z<%s>" % (n, cx)):
+                    out.append(("<%s><%s>" % (root, n) + ip + "<p>x" + c + "t", (NS_HTML, cx)))
+    return out
+
+
+def cdata_edge_texts():
+    """CDATA sections (allowed only when the adjusted current node is foreign) that are empty, end at EOF, or consist of
+    brackets: the tokenizer flushes `temp_buf` even when it is empty"""
+    bodies = ["", "]", "]]", "]]]", "x", "x]", "]x", "]]x", "\n", "\0", " ", ">", "]>", "<", "&amp;", "\r\n"]
+    ends = ["]]>", "]]>y", "]]><g>", "]]></svg>z", "", "]", "]]", "]]>\n", "]]><![CDATA[]]>", "]]><!--c-->"]
+    pres = ["<svg>", "<svg>a", "<math>", "<math><mi>", "<svg><g>", "<svg><desc>", "<svg><foreignObject>", "<p><svg>", "<table><svg>",
+            "<svg><title>", "<math><annotation-xml>", "<math><annotation-xml encoding=text/html>", "<div>", "<svg><g></g>",
+            "<select><svg>", "<pre><svg>", "<pre>\n<svg>", "<textarea><svg>", "<svg><!--c-->"]
+    return [p_ + "<![CDATA[" + b + e for p_ in pres for b in bodies for e in ends]
